@@ -140,7 +140,7 @@ def strategy(spec, ctx):
         x = st.sampled_from(RIGID).map(lambda t: (t[0], t[1]))
     else:
         feats = [f for f in dsl.swarm_features(ctx.seed, ctx.shard_index) if f not in ('anchor',)]
-        x = dsl.tree_strategy(feats, max_leaves=4, look_kinds=('nfb', 'npb', 'neb')).map(lambda t: (t, None))
+        x = st.one_of(*[dsl.tree_strategy(feats, max_leaves=4, look_kinds=('nfb', 'npb', 'neb'))] * 5, dsl.hostile_tree(4)).map(lambda t: (t, None))
     q = st.tuples(st.sampled_from(['opt', 'star', 'plus', 'exactly', 'atleast', 'atmost', 'range', 'range']),
                   st.sampled_from(['class', 'method', 'class', 'method', 'mul', 'rmul']), bound(),
                   st.one_of(st.none(), bound()), st.booleans()).map(fix_q)
